@@ -57,6 +57,15 @@ Delta(prev, next, legacy) ==
 (* Closing sequence: CSI m unless the last style is the default one.        *)
 Closing(last) == IF last = DefaultPen THEN <<>> ELSE <<<<>>>>
 
+(* Hyperlinks (0 = none, n = a URI): a hyperlink control string is written  *)
+(* where the link differs from the previous cell's, and the string closes   *)
+(* a link left open by its last cell (transcribed with the proposed repair  *)
+(* notes/proposed-fixes/c18-2; without it LinkClosing is <<>>).             *)
+LinkDelta(prevL, nextL) == IF prevL # nextL THEN <<nextL>> ELSE <<>>
+LinkClosing(lastL) == IF lastL # 0 THEN <<0>> ELSE <<>>
+(* What a sequence of hyperlink control strings leaves in force.            *)
+LinkAfter(l, seq) == IF Len(seq) = 0 THEN l ELSE seq[Len(seq)]
+
 RECURSIVE ApplyAll(_, _, _)
 ApplyAll(pen, seqs, i) == IF i > Len(seqs) THEN pen ELSE ApplyAll(Apply(pen, seqs[i]), seqs, i + 1)
 =============================================================================
